@@ -1,0 +1,74 @@
+//go:build verif
+
+// Contracts for govc (/verif): C17 "Asset supply equals the value held in unconsumed outputs" and the value codecs that the
+// finalization path (C15/C16/C17) reads through the T-KV model. Comment-only file.
+
+package common
+
+//@ -- ASSETTOTAL/<asset> holds the decimal text of an Integer (Integer.String / NewIntegerFromString). AmountOfVal(v) is the amount
+//@ -- (in units of 10^-8) encoded by the text with value id v. ASSUMED inverse pair: parsing the text printed for a non-negative
+//@ -- amount yields that amount (String prints all eight decimals; decimal.NewFromString is exact). The text codec itself
+//@ -- (shopspring/decimal, big.Int.String) is outside the subset and not verified (see C33's note).
+//@ uninterp AmountOfVal(v mathint) mathint
+
+//@ -- ASSETINFO/<asset> holds the JSON text of a common.Asset {Chain, AssetKey}. AssetChainOfVal / AssetKeyOfVal are the two fields
+//@ -- decoded from the value with id v; AssetInfoWf(v): the value is JSON that decodes to an asset passing Asset.Verify. The JSON codec
+//@ -- (reflection) is outside the subset: storage.readAssetInfo is an assumed (opaque) contract over these functions.
+//@ uninterp AssetChainOfVal(v mathint) crypto.Hash
+//@ uninterp AssetKeyOfVal(v mathint) string
+//@ uninterp AssetInfoWf(v mathint) bool
+
+//@ -- ═════════ sums over the outputs of a transaction ═════════
+//@ rec SumOut(outs []*Output, n int) mathint = n <= 0 ? 0 : SumOut(outs, n - 1) + val(outs[n - 1].Amount)
+//@ rec SumSubmit(outs []*Output, n int) mathint = n <= 0 ? 0 : SumSubmit(outs, n - 1) + (outs[n - 1].Type == OutputTypeWithdrawalSubmit ? val(outs[n - 1].Amount) : 0)
+
+//@ -- ═════════ transaction classes, by shape (what Validate admits for each class) ═════════
+//@ -- A deposit or mint input is the only input (validateDeposit / validateMint: len(Inputs) == 1); a genesis input is the only input
+//@ -- (genesis transactions are built by the node itself, one input each). OnlySpecial states exactly that.
+//@ spec OnlySpecial(tx *Transaction) bool = forall j int :: {tx.Inputs[j]} 0 <= j && j < len(tx.Inputs) && !PlainInput(tx.Inputs[j]) ==> len(tx.Inputs) == 1
+//@ spec DepositShape(tx *Transaction) bool = len(tx.Inputs) == 1 && tx.Inputs[0].Mint == nil && tx.Inputs[0].Deposit != nil
+//@ spec MintShape(tx *Transaction) bool = len(tx.Inputs) == 1 && tx.Inputs[0].Mint != nil
+//@ spec GenesisShape(tx *Transaction) bool = len(tx.Inputs) == 1 && tx.Inputs[0].Mint == nil && tx.Inputs[0].Deposit == nil && !isnil(tx.Inputs[0].Genesis)
+//@ spec SubmitShape(tx *Transaction) bool = PlainInputs(tx) && len(tx.Outputs) >= 1 && tx.Outputs[0].Type == OutputTypeWithdrawalSubmit
+//@ spec NoSubmitOutput(tx *Transaction) bool = forall j int :: 0 <= j && j < len(tx.Outputs) ==> tx.Outputs[j].Type != OutputTypeWithdrawalSubmit
+//@ -- every other admitted transaction (transfers, withdrawal claims, node and custodian operations): plain inputs, no submit output
+//@ spec OtherShape(tx *Transaction) bool = PlainInputs(tx) && NoSubmitOutput(tx)
+
+//@ -- DeltaOf: the change of the recorded supply that ONE finalization of tx makes, by class (C17); DeltaKnown: tx has one of the five shapes
+//@ spec DeltaKnown(tx *Transaction) bool = DepositShape(tx) || MintShape(tx) || GenesisShape(tx) || SubmitShape(tx) || OtherShape(tx)
+//@ spec DeltaOf(tx *Transaction) mathint = DepositShape(tx) ? val(tx.Inputs[0].Deposit.Amount) : (MintShape(tx) ? val(tx.Inputs[0].Mint.Amount) : (GenesisShape(tx) ? SumOut(tx.Outputs, len(tx.Outputs)) :
+//@     (SubmitShape(tx) ? 0 - SumSubmit(tx.Outputs, len(tx.Outputs)) : 0)))
+//@ spec WritesTotal(tx *Transaction) bool = DepositShape(tx) || MintShape(tx) || GenesisShape(tx) || SubmitShape(tx)
+
+//@ -- The capacity table is a switch over constant asset ids: a deterministic function of id. ASSUMED name for its value.
+//@ uninterp CapacityOf(id crypto.Hash) mathint
+
+//@ -- ═════════ utxo.go: which outputs become spendable (materialised) outputs ═════════
+//@ -- Materialised(t): the output types that UnspentOutputs turns into UTXO records. A withdrawal submission output (0xa1) and a
+//@ -- custodian slash output (0xb2) are NOT materialised: their value leaves the set of unconsumed outputs at finalization.
+//@ spec Materialised(t mathint) bool = t == OutputTypeScript || t == OutputTypeNodePledge || t == OutputTypeNodeCancel || t == OutputTypeNodeAccept ||
+//@     t == OutputTypeNodeRemove || t == OutputTypeWithdrawalClaim || t == OutputTypeCustodianUpdateNodes
+//@ spec KnownOutType(t mathint) bool = Materialised(t) || t == OutputTypeWithdrawalSubmit || t == OutputTypeCustodianSlashNodes
+//@ rec CountMat(outs []*Output, n int) mathint = n <= 0 ? 0 : CountMat(outs, n - 1) + (Materialised(outs[n - 1].Type) ? 1 : 0)
+//@ rec SumMat(outs []*Output, n int) mathint = n <= 0 ? 0 : SumMat(outs, n - 1) + (Materialised(outs[n - 1].Type) ? val(outs[n - 1].Amount) : 0)
+//@ rec SumUtxo(us []*UTXOWithLock, n int) mathint = n <= 0 ? 0 : SumUtxo(us, n - 1) + val(us[n - 1].Amount)
+
+//@ -- UtxoOf(u, tx): u is the record UnspentOutputs builds for output u.Index of tx (tx.hash is the cached payload hash, set by the call)
+//@ spec UtxoOf(u *UTXOWithLock, tx *VersionedTransaction) bool = u != nil && u.Hash == tx.hash && u.Asset == tx.Asset && 0 <= u.Index && u.Index < len(tx.Outputs) &&
+//@     Materialised(u.Type) && u.Type == tx.Outputs[u.Index].Type && val(u.Amount) == val(tx.Outputs[u.Index].Amount) && u.Keys == tx.Outputs[u.Index].Keys
+
+//@ func (tx *VersionedTransaction) UnspentOutputs
+//@   property C17, C15
+//@   trustpre PayloadHash -- its payload well-formedness precondition and Debug self-check (maypanic) belong to C06
+//@   requires tx != nil && OutputsOK(&tx.SignedTransaction.Transaction)
+//@   requires [preexisting] !fresh(tx.Outputs) && forall a int :: {tx.Outputs[a]} 0 <= a && a < len(tx.Outputs) ==> !fresh(tx.Outputs[a]) -- typing: objects reachable from the argument exist before the call
+//@   nopanic when forall i int :: 0 <= i && i < len(tx.Outputs) ==> KnownOutType(tx.Outputs[i].Type) -- Validate rejects every other output type
+//@   modifies tx.hash, tx.pmbytes
+//@   ensures [hash] tx.hash.HasValue() && (old(tx.hash.HasValue()) ==> tx.hash == old(tx.hash))
+//@   ensures [by-utxo] forall j int :: {result[j]} 0 <= j && j < len(result) ==> fresh(result[j]) && allocated(result[j]) && UtxoOf(result[j], tx)
+//@   ensures [by-output] forall i int :: 0 <= i && i < len(tx.Outputs) && Materialised(tx.Outputs[i].Type) ==> exists j int :: 0 <= j && j < len(result) && result[j].Index == i
+//@   loop 0 invariant [stable] tx.Outputs == old(tx.Outputs) && tx.Asset == old(tx.Asset) && tx.hash == hash && forall i int :: {tx.Outputs[i]} 0 <= i && i < len(tx.Outputs) ==> tx.Outputs[i] == old(tx.Outputs[i]) && tx.Outputs[i] != nil &&
+//@       tx.Outputs[i].Type == old(tx.Outputs[i].Type) && val(tx.Outputs[i].Amount) == old(val(tx.Outputs[i].Amount)) && tx.Outputs[i].Keys == old(tx.Outputs[i].Keys)
+//@   loop 0 invariant [own] cap(utxos) == 0 || (fresh(utxos) && allocated(utxos))
+//@   loop 0 invariant [by-utxo] forall j int :: {utxos[j]} 0 <= j && j < len(utxos) ==> fresh(utxos[j]) && allocated(utxos[j]) && UtxoOf(utxos[j], tx) && utxos[j].Index <= rangeindex
+//@   loop 0 invariant [by-output] forall i int :: 0 <= i && i <= rangeindex && Materialised(tx.Outputs[i].Type) ==> exists j int :: 0 <= j && j < len(utxos) && utxos[j].Index == i
